@@ -279,22 +279,27 @@ func Templates() []Template {
 		if twoD {
 			x = RandF32(rd, []int{b, cin, 4, 4}, -2, 2)
 			k = RandF32(rw, []int{cout, cin, 2, 2}, -1, 1)
-			switch rw.Intn(4) {
+			switch rw.Intn(6) {
 			case 0:
 				attrs = append(attrs, mb.AInts("pads", 1, 1, 1, 1))
 			case 1:
 				attrs = append(attrs, mb.AInts("strides", 2, 2))
 			case 2:
 				attrs = append(attrs, mb.AInts("kernel_shape", 2, 2), mb.AInts("dilations", 1, 1))
+			case 3, 4:
+				// auto_pad: the paddings are computed inside Apply from the input's shape and kept in the operator
+				attrs = append(attrs, mb.AS("auto_pad", pick(rw, "SAME_UPPER", "SAME_LOWER", "VALID")))
 			}
 		} else {
 			x = RandF32(rd, []int{b, cin, 6}, -2, 2)
 			k = RandF32(rw, []int{cout, cin, 3}, -1, 1)
-			switch rw.Intn(3) {
+			switch rw.Intn(5) {
 			case 0:
 				attrs = append(attrs, mb.AInts("pads", 1, 1))
 			case 1:
 				attrs = append(attrs, mb.AInts("strides", 2))
+			case 2, 3:
+				attrs = append(attrs, mb.AS("auto_pad", pick(rw, "SAME_UPPER", "SAME_LOWER", "VALID")))
 			}
 		}
 		ops := []Operand{data(x, 0), weight(k)}
